@@ -7,6 +7,8 @@ package meta
 import (
 	"sync/atomic"
 	"unicode/utf8"
+
+	"github.com/coregx/coregex/verifhook"
 )
 
 // nextSearchPos returns the position at which match iteration resumes after an
@@ -230,6 +232,7 @@ func (e *Engine) findAllIndicesLoop(haystack []byte, n int, results [][2]int) []
 		state.dfaCache != nil && state.revDFACache != nil
 
 	for n <= 0 || len(results) < n {
+		vpos := pos // verif: position this iteration searched from
 		var start, end int
 		var found bool
 
@@ -253,6 +256,9 @@ func (e *Engine) findAllIndicesLoop(haystack []byte, n int, results [][2]int) []
 			start, end, found = e.findIndicesAtWithState(haystack, pos, state)
 		}
 		if !found {
+			if verifhook.On {
+				verifhook.Emit("iterstop", 1, vpos)
+			}
 			break
 		}
 
@@ -262,6 +268,9 @@ func (e *Engine) findAllIndicesLoop(haystack []byte, n int, results [][2]int) []
 		//nolint:gocritic // badCond: intentional - checking empty match (start==end) at lastMatchEnd
 		if start == end && start == lastMatchEnd {
 			pos = nextSearchPos(haystack, pos)
+			if verifhook.On {
+				verifhook.Emit("iter", 1, vpos, start, end, 0, pos)
+			}
 			if pos > len(haystack) {
 				break
 			}
@@ -284,6 +293,9 @@ func (e *Engine) findAllIndicesLoop(haystack []byte, n int, results [][2]int) []
 			pos = end
 		default:
 			pos++
+		}
+		if verifhook.On {
+			verifhook.Emit("iter", 1, vpos, start, end, 1, pos)
 		}
 
 		if pos > len(haystack) {
@@ -326,6 +338,7 @@ func (e *Engine) Count(haystack []byte, n int) int {
 		state.dfaCache != nil && state.revDFACache != nil
 
 	for pos <= len(haystack) {
+		vpos := pos // verif: position this iteration searched from
 		var start, end int
 		var found bool
 
@@ -347,6 +360,9 @@ func (e *Engine) Count(haystack []byte, n int) int {
 			start, end, found = e.findIndicesAtWithState(haystack, pos, state)
 		}
 		if !found {
+			if verifhook.On {
+				verifhook.Emit("iterstop", 2, vpos)
+			}
 			break
 		}
 
@@ -354,6 +370,9 @@ func (e *Engine) Count(haystack []byte, n int) int {
 		//nolint:gocritic // badCond: intentional - checking empty match (start==end) at lastNonEmptyEnd
 		if start == end && start == lastNonEmptyEnd {
 			pos = nextSearchPos(haystack, pos)
+			if verifhook.On {
+				verifhook.Emit("iter", 2, vpos, start, end, 0, pos)
+			}
 			if pos > len(haystack) {
 				break
 			}
@@ -376,6 +395,9 @@ func (e *Engine) Count(haystack []byte, n int) int {
 			pos = end
 		default:
 			pos++
+		}
+		if verifhook.On {
+			verifhook.Emit("iter", 2, vpos, start, end, 1, pos)
 		}
 
 		// Check limit
@@ -414,8 +436,12 @@ func (e *Engine) FindAllSubmatch(haystack []byte, n int) []*MatchWithCaptures {
 	defer e.putSearchState(state)
 
 	for pos <= len(haystack) {
+		vpos := pos // verif: position this iteration searched from
 		match := e.findSubmatchAtWithState(haystack, pos, state)
 		if match == nil {
+			if verifhook.On {
+				verifhook.Emit("iterstop", 3, vpos)
+			}
 			break
 		}
 
@@ -426,6 +452,9 @@ func (e *Engine) FindAllSubmatch(haystack []byte, n int) []*MatchWithCaptures {
 		//nolint:gocritic // badCond: intentional - checking empty match at lastMatchEnd
 		if matchStart == matchEnd && matchStart == lastMatchEnd {
 			pos = nextSearchPos(haystack, pos)
+			if verifhook.On {
+				verifhook.Emit("iter", 3, vpos, matchStart, matchEnd, 0, pos)
+			}
 			if pos > len(haystack) {
 				break
 			}
@@ -447,6 +476,9 @@ func (e *Engine) FindAllSubmatch(haystack []byte, n int) []*MatchWithCaptures {
 			pos = matchEnd
 		default:
 			pos++
+		}
+		if verifhook.On {
+			verifhook.Emit("iter", 3, vpos, matchStart, matchEnd, 1, pos)
 		}
 
 		// Check limit
